@@ -5,7 +5,10 @@ import graphs as gr
 PROP = "C10"
 RULE = ("every acyclic ADMG(n) n<=3 quick / n<=4 thorough under the label families int and 'U<i>' (graphs with a bidirected "
         "edge also under 'U<n-1-i>' and 'U<i+1>'), all pairwise-disjoint (X,Y,Z) of original nodes with X<Y; seeded random "
-        "ADMGs n<=8 under six label families with 30 queries; distinct by (canonical graph, label family); non-trivial = "
+        "ADMGs n<=8 under six label families with 30 queries; a quarter of the random and every small graph again as REPEAT case "
+        "(object built and used for a neighbour graph, then edited in place or its layer objects replaced via remove_edge_type/"
+        "add_edge_type, returned DiGraph edited and the conversion repeated, also on G.copy()) and with CUSTOM edge-type names "
+        "(beyond the property's quantifier); distinct by (canonical graph, label family, repeat, names); non-trivial = "
         "the graph has a bidirected edge and the queries contain a separated and a connected one")
 EXHAUSTIVE = {"quick": "all ADMG(n) n<=3 x {int,'U<i>'} labels, all disjoint X,Y,Z",
               "thorough": "all ADMG(n) n<=4 x {int,'U<i>'} labels, all disjoint X,Y,Z"}
@@ -29,6 +32,7 @@ LEVEL_NOTE = ("Observed by correspondence only: node attributes are kept, the re
 TECHNIQUE = "Coq proof (model satisfies spec) + extracted-model correspondence (tie K)"
 SPOT_N = 10
 UFAMS = ("U", "Urev", "Ushift")
+NAME_SETS = [["dir", "bidir"], ["bidirected", "directed"], ["->", "<->"]]
 
 
 def queries(nodes, rng=None, limit=None):
@@ -75,8 +79,27 @@ def gen_cases(tier, rng):
                 qs.append([X, Y, Z])
         else:
             qs = rng.sample(allq, min(30, len(allq)))
-        yield {"kind": "rand", "g": g, "fam": fams[i % len(fams)], "qs": qs, "oracle": n + len(g["B"]) <= 9,
-               "aseed": rng.randrange(64)}
+        c = {"kind": "rand", "g": g, "fam": fams[i % len(fams)], "qs": qs, "oracle": n + len(g["B"]) <= 9,
+             "aseed": rng.randrange(64)}
+        if i % 4 == 1:
+            c.update(kind="rand-rep", rep=rng.randrange(1 << 30))
+        elif i % 4 == 3:
+            c.update(kind="rand-names", names=rng.choice(NAME_SETS))
+            if i % 8 == 7:
+                c.update(kind="rand-names-rep", rep=rng.randrange(1 << 30))
+        yield c
+    # REPEAT stream (object first built and used for a neighbour graph, then edited / layers replaced in place; the returned
+    # DiGraph is edited and the conversion repeated) and CUSTOM EDGE-TYPE NAMES stream over the small exhaustive graphs
+    for n in range(2, 4 if tier == "quick" else 5):
+        for j, g in enumerate(gr.enum_admg(n)):
+            if not (g["D"] or g["B"]) or (n == 4 and j % 8):
+                continue
+            qs = queries(g["V"])
+            yield {"kind": "rep%d" % n, "g": g, "fam": None if j % 2 else "U", "qs": qs, "oracle": True,
+                   "aseed": rng.randrange(64), "rep": rng.randrange(1 << 30)}
+            yield {"kind": "names%d" % n, "g": g, "fam": None, "qs": qs, "oracle": True, "aseed": rng.randrange(64),
+                   "names": NAME_SETS[j % len(NAME_SETS)], **({"rep": rng.randrange(1 << 30)} if j % 3 == 0 else {})}
+
 
 
 def encode(case):
@@ -236,14 +259,13 @@ def run_impl(case):
                 L = mk()
                 L.add_edges_from((lab(a), lab(b)) for a, b in es)
                 M.add_edge_type(L, name)
-            gr.morph(M, g0, g, lab, {"D": dn, "B": bn}) if False else None
-            if gr.from_mixed is not None:
-                # a layer that was not replaced still holds g0's edges: finish with in-place edits
-                cur_d = {tuple(e) for e in ((inv(a), inv(b)) for a, b in M.get_graphs(dn).edges)}
-                for a, b in sorted(cur_d - {tuple(e) for e in g["D"]}):
-                    M.remove_edge(lab(a), lab(b), dn)
-                for a, b in sorted({tuple(e) for e in g["D"]} - cur_d):
-                    M.add_edge(lab(a), lab(b), dn)
+            # a directed layer that was not replaced still holds g0's edges: finish with in-place edits
+            cur_d = {(inv(a), inv(b)) for a, b in M.get_graphs(dn).edges}
+            want_d = {tuple(e) for e in g["D"]}
+            for a, b in sorted(cur_d - want_d):
+                M.remove_edge(lab(a), lab(b), dn)
+            for a, b in sorted(want_d - cur_d):
+                M.add_edge(lab(a), lab(b), dn)
     before = gr.snapshot(M)
     R = convert(M)
     out = {"mutated": gr.snapshot(M) != before}
